@@ -32,6 +32,7 @@ def canon(steps):
 
 
 ATTRIBUTION_BUDGET = 8   # re-executions for attribution per family
+MINIMAL_BUDGET = 3       # shrink-and-judge attributions per family (minutes each)
 
 
 def run_family(ctx, name, behaviours, tags, server_flags=None, subcmd="run"):
@@ -89,6 +90,8 @@ def run_family(ctx, name, behaviours, tags, server_flags=None, subcmd="run"):
             prefix_tried.add(v["tid"])
             if len(prefix_tried) <= ATTRIBUTION_BUDGET:     # (a tree on which most behaviours fail is not a tree of listed findings)
                 kf = prefix_attribution(ctx, byid[v["tid"]], server_flags)
+            if kf is None and len(prefix_tried) <= MINIMAL_BUDGET:
+                kf = minimal_attribution(ctx, byid[v["tid"]], server_flags)
         if kf is None and v["tid"] not in attributed_tids and v["tid"] not in diff_tried \
                 and v["tag"] in ("Converged", "RefEquiv", "ConvergedN", "RefEquivN") and v["tid"] in byid and subcmd == "run":
             diff_tried.add(v["tid"])
@@ -155,6 +158,73 @@ def undo_gc_differential(ctx, b, evs, server_flags):
         return None
     ctx.count("attributed_by_gc_differential_" + f["id"])
     return f
+
+
+DIVERGENCE_TAGS = ("RefEquiv", "Converged", "BuildEquiv", "RefEquivN", "ConvergedN")
+
+
+def shrink_steps(ctx, b, tags, server_flags, max_rounds=40):
+    """Greedy step removal: the shortest sub-behaviour of b (set-up kept) that still violates one of `tags`."""
+    steps = list(b["steps"])
+    rounds = [0]
+
+    def still(cands):
+        rounds[0] += 1
+        behs = [dict(b, steps=st, id="cand-%d" % i) for i, st in enumerate(cands)]
+        traces = execute(ctx, behs, "min-" + re_safe(b["id"]), server_flags=server_flags, shards=min(8, max(1, len(behs) // 4)))
+        viols = validate(ctx, traces)
+        bad = {x["tid"] for x in viols if x["tag"] in tags}
+        return [i for i in range(len(cands)) if "cand-%d" % i in bad]
+
+    changed = True
+    while changed and rounds[0] < max_rounds:
+        changed = False
+        for size in (4, 2, 1):
+            i = 0
+            while i < len(steps) and rounds[0] < max_rounds:
+                cands, j = [], i
+                while j < len(steps) and len(cands) < 24:
+                    if steps[j]["a"] not in ("attach", "setupsync") or size == 1 and steps[j]["a"] not in ("setupsync",) and j > 2:
+                        cands.append(steps[:j] + steps[j + size:])
+                    j += 1
+                if not cands:
+                    break
+                ok = still(cands)
+                if ok:
+                    steps = cands[ok[0]]
+                    changed = True
+                else:
+                    i = j
+    return steps
+
+
+def minimal_attribution(ctx, b, server_flags):
+    """The shortest sub-behaviour that still disagrees with the reference, judged by the trigger predicates: a listed
+    finding whose own minimal pattern is contained in b and alone suffices for a divergence explains b's divergence,
+    however later operations amplified it."""
+    try:
+        steps = shrink_steps(ctx, b, DIVERGENCE_TAGS, server_flags)
+        nb = dict(b, steps=steps, id=b["id"] + "~min")
+        traces = execute(ctx, [nb], "minj-" + re_safe(b["id"]), server_flags=server_flags, shards=1)
+        viols = validate(ctx, traces)
+    except Infra:
+        return None
+    ctx.count("minimal_attribution_runs")
+    for v in sorted(viols, key=lambda v: (v["line"], v["tag"] in ("Converged", "ConvergedN"))):
+        if v["tag"] not in DIVERGENCE_TAGS:
+            continue
+        evs = trace_events(v["trace"], v["tid"])
+        first = None
+        with open(v["trace"]) as f:
+            for n, line in enumerate(f, 1):
+                if n == v["line"]:
+                    first = json.loads(line)
+                    break
+        kf = F.attribute(ctx.prop, v, evs, first)
+        if kf is not None:
+            ctx.count("attributed_by_minimal_" + kf["id"])
+        return kf
+    return None
 
 
 def prefix_attribution(ctx, b, server_flags):
